@@ -1,4 +1,10 @@
 import PhysisModel.Proofs.Bcn
+/-!
+Whole-image induction for `block_decoder` (C13): `copy_from_slice`, the clipped row loop,
+`copy_block_buffer`, and the two nested block loops with the invariant "every pixel of an already
+decoded block is final and correct; the shared buffer keeps its shape; the data cursor is at
+block `N`" (`LoopInv`), for every width and height.
+-/
 open Physis Physis.Bcn Physis.Spec.Bcn
 namespace Physis.Proofs.Bcn
 
